@@ -58,6 +58,7 @@ static St pStmt(const std::vector<Toks> &L, size_t &li)
 {
 	const Toks &t = L[li++]; size_t i = 1; St s; s.kind = t[0][0];
 	if (t[0] == "D") { s.x = atoi(t.at(i++).c_str()); s.isBit = t.at(i++) == "b"; s.w = atoi(t.at(i++).c_str()); s.e = pExpr(t, i); }
+	else if (t[0] == "DD") { s.kind = 'E'; s.x = atoi(t.at(i++).c_str()); s.isBit = t.at(i++) == "b"; s.w = atoi(t.at(i++).c_str()); s.tmp = atoi(t.at(i++).c_str()); s.e.bits = t.at(i++); }
 	else if (t[0] == "A") { s.x = atoi(t.at(i++).c_str()); int np = atoi(t.at(i++).c_str()); for (int k = 0; k < np; k++) s.path.push_back(pSel(t, i)); s.e = pExpr(t, i); }
 	else if (t[0] == "R") { s.tmp = atoi(t.at(i++).c_str()); s.x = atoi(t.at(i++).c_str()); }
 	else if (t[0] == "IF") {
@@ -178,6 +179,16 @@ struct Builder {
 			}
 			vars.push_back(std::move(nv));
 		} break;
+		case 'E': {
+			// declaration with a default value: a Node_Default looped through the variable's own signal node
+			Var nv; nv.id = s.x;
+			if (s.isBit) { nv.b.reset(new Bit()); *nv.b = BitDefault(s.e.bits[0]); }
+			else { nv.u.reset(new UInt(BitWidth((uint64_t)s.w))); std::string lit = std::to_string(s.e.bits.size()) + "b" + s.e.bits; 
+				// UInt hides SliceableBitVector::operator=(const UIntDefault&) behind its own operator= overloads (and
+				// `UInt x = UIntDefault(..)` asserts valid() on the not yet sized vector): call the base operator on a sized vector
+				static_cast<UInt::Base&>(*nv.u) = UIntDefault(lit.c_str()); }
+			vars.push_back(std::move(nv));
+		} break;
 		case 'A': {
 			Val rhs = eval(s.e);
 			std::vector<Val> idxHold(s.path.size());
@@ -237,12 +248,97 @@ struct Undef {};
 struct OV { uint64_t v; int w; };
 static uint64_t mask(int w) { return w >= 64 ? ~0ull : ((1ull << w) - 1); }
 
+static bool hasDefaults(const std::vector<St> &b) { for (const St &s : b) { if (s.kind == 'E') return true; for (const Br &br : s.brs) if (hasDefaults(br.body)) return true; } return false; }
+static void collectDefaults(const std::vector<St> &b, std::vector<OV> &d) {
+	for (const St &s : b) {
+		if (s.kind == 'E') { OV v{0, (int)s.e.bits.size()}; for (char c : s.e.bits) v.v = (v.v << 1) | (c == '1'); if ((int)d.size() <= s.tmp) d.resize(s.tmp + 1, OV{0, 0}); d[s.tmp] = v; }
+		for (const Br &br : s.brs) collectDefaults(br.body, d);
+	}
+}
+
+// Structural dependency analysis on the AST (independent of the Coq model's graph exploration): which
+// default nodes does the FINAL driver of every defaulted variable depend on.  Every branch is walked; an
+// assignment inside a scope the variable was not declared in depends on the old value and on the full
+// condition (all enclosing conditions and the earlier conditions of the chain), a partial assignment on the
+// old value and the index.  A default node whose variable's final driver depends on the node itself keeps
+// its constant ("loopy"), otherwise it shows the variable's final value; nodes are resolved in creation
+// order and a node already resolved to its constant no longer forwards dependencies.
+struct Taint {
+	struct TV { int id; uint64_t t; int depth; int dk; };
+	std::vector<TV> env;
+	std::vector<uint64_t> finalT;
+	std::vector<bool> haveFinal;
+
+	TV *find(int id) { for (size_t i = env.size(); i-- > 0;) if (env[i].id == id) return &env[i]; return nullptr; }
+	uint64_t te(const Ex &e) { uint64_t t = 0; if (e.op == "s") { TV *v = find(e.a); if (v) t |= v->t; } for (const Ex &k : e.kids) t |= te(k); return t; }
+	void leave(size_t mark) {
+		for (size_t i = mark; i < env.size(); i++) if (env[i].dk >= 0) {
+			if ((int)finalT.size() <= env[i].dk) { finalT.resize(env[i].dk + 1, 0); haveFinal.resize(env[i].dk + 1, false); }
+			finalT[env[i].dk] = env[i].t; haveFinal[env[i].dk] = true;
+		}
+		env.resize(mark);
+	}
+	void block(const std::vector<St> &b, int depth, uint64_t full)
+	{
+		for (const St &s : b) switch (s.kind) {
+		case 'D': env.push_back({s.x, te(s.e), depth, -1}); break;
+		case 'E': env.push_back({s.x, s.tmp < 64 ? (1ull << s.tmp) : 0, depth, s.tmp}); break;
+		case 'A': {
+			uint64_t t = te(s.e);
+			TV *v = find(s.x); if (!v) die("taint: unknown signal");
+			if (!s.path.empty()) { t |= v->t; for (const Sel &p : s.path) if (p.kind[0] == 'd') t |= te(p.idx); }
+			if (depth > v->depth) t |= v->t | full;
+			v->t = t;
+		} break;
+		case 'R': break;
+		case 'I': {
+			uint64_t chain = 0;
+			for (const Br &br : s.brs) {
+				uint64_t f;
+				if (br.type == 2) f = chain | full;
+				else { uint64_t c = te(br.c); f = c | chain | full; chain |= c; }
+				size_t mark = env.size();
+				block(br.body, depth + 1, f);
+				leave(mark);
+			}
+		} break;
+		}
+	}
+	// loopy[k]
+	std::vector<bool> classify(const std::vector<St> &prog, size_t n)
+	{
+		block(prog, 0, 0); leave(0);
+		finalT.resize(n, 0); haveFinal.resize(n, false);
+		std::vector<bool> loopy(n, true);
+		for (size_t k = 0; k < n; k++) {
+			uint64_t R = finalT[k], done = 0;
+			for (bool ch = true; ch;) {
+				ch = false;
+				for (size_t j = 0; j < n; j++) if (((R >> j) & 1) && !((done >> j) & 1) && j != k) {
+					done |= 1ull << j; ch = true;
+					if (j < k && loopy[j]) continue;          // already bypassed to its constant
+					R |= finalT[j];
+				}
+			}
+			loopy[k] = (R >> k) & 1;
+		}
+		return loopy;
+	}
+};
+
 struct Oracle {
 	const std::vector<OV> *in = nullptr;
-	std::vector<std::pair<int, OV>> env;
+	struct EV { int first; OV second; int dk; };
+	std::vector<EV> env;
 	std::vector<std::pair<int, OV>> reads;
+	std::vector<OV> rho;                       // value of every default node in this run
+	std::vector<std::optional<OV>> finals;     // value of every defaulted variable when it dies
 
 	OV *find(int id) { for (size_t i = env.size(); i-- > 0;) if (env[i].first == id) return &env[i].second; return nullptr; }
+	void leave(size_t mark) {
+		for (size_t i = mark; i < env.size(); i++) if (env[i].dk >= 0) { if ((int)finals.size() <= env[i].dk) finals.resize(env[i].dk + 1); finals[env[i].dk] = env[i].second; }
+		env.resize(mark);
+	}
 
 	OV ev(const Ex &e)
 	{
@@ -296,12 +392,13 @@ struct Oracle {
 	}
 
 	void block(const std::vector<St> &b) { for (const St &s : b) stmt(s); }
-	void scoped(const std::vector<St> &b) { size_t mark = env.size(); block(b); env.resize(mark); }
+	void scoped(const std::vector<St> &b) { size_t mark = env.size(); block(b); leave(mark); }
 
 	void stmt(const St &s)
 	{
 		switch (s.kind) {
-		case 'D': { OV v = ev(s.e); env.push_back({s.x, v}); } break;
+		case 'D': { OV v = ev(s.e); env.push_back({s.x, v, -1}); } break;
+		case 'E': { if ((size_t)s.tmp >= rho.size()) die("oracle: default numbering"); env.push_back({s.x, rho[s.tmp], s.tmp}); } break;
 		case 'A': {
 			OV rhs = ev(s.e); std::vector<OV> idx;
 			for (const Sel &p : s.path) idx.push_back(p.kind[0] == 'd' ? ev(p.idx) : OV{0, 0});
@@ -377,7 +474,8 @@ static void runProgram(const Prog &P)
 			s.powerOn();
 			s.advance({ 1, 1 });
 		};
-		simulate(raw);
+		// Node_Default cannot be simulated: programs with defaulted declarations are observed after postprocessing only
+		if (!hasDefaults(P.body)) simulate(raw);
 		design.postprocess();
 		simulate(post);
 	} catch (const std::exception &e) {
@@ -386,7 +484,7 @@ static void runProgram(const Prog &P)
 		if (err.size() > 300) err.resize(300);
 	}
 	for (size_t k = 0; k < nv; k++) {
-		if (!err.empty() && (raw[k].empty() || post[k].empty())) std::cout << P.id << " " << k << " IX EXCEPTION " << err << "\n";
+		if (!err.empty() && ((raw[k].empty() && !hasDefaults(P.body)) || post[k].empty())) std::cout << P.id << " " << k << " IX EXCEPTION " << err << "\n";
 		if (!raw[k].empty()) std::cout << P.id << " " << k << " IR " << raw[k] << "\n";
 		if (!post[k].empty()) std::cout << P.id << " " << k << " IP " << post[k] << "\n";
 		// the oracle
@@ -398,7 +496,26 @@ static void runProgram(const Prog &P)
 			in.push_back(v);
 		}
 		Oracle O; O.in = &in;
-		if (!undef) { try { O.block(P.body); } catch (const Undef &) { undef = true; } }
+		std::vector<OV> dfl; collectDefaults(P.body, dfl);
+		if (!undef && dfl.size() > 60) undef = true;
+		if (!undef) {
+			try {
+				if (dfl.empty()) O.block(P.body);
+				else {
+					Taint T; std::vector<bool> loopy = T.classify(P.body, dfl.size());
+					std::vector<OV> rho = dfl;                 // any start value: a non-loopy final does not depend on its own node
+					bool consistent = false;
+					for (size_t pass = 0; pass < 2 * dfl.size() + 3 && !consistent; pass++) {
+						O = Oracle(); O.in = &in; O.rho = rho;
+						O.block(P.body); O.finals.resize(dfl.size());
+						for (size_t i = 0; i < O.env.size(); i++) if (O.env[i].dk >= 0) O.finals[O.env[i].dk] = O.env[i].second;
+						consistent = true;
+						for (size_t j = 0; j < dfl.size(); j++) if (!loopy[j] && O.finals[j] && O.finals[j]->v != rho[j].v) { rho[j] = *O.finals[j]; consistent = false; }
+					}
+					if (!consistent) undef = true;
+				}
+			} catch (const Undef &) { undef = true; }
+		}
 		if (undef) { std::cout << P.id << " " << k << " OR U\n"; continue; }
 		std::string r = "F ";
 		for (size_t i = O.env.size(), n = 0; i-- > 0; n++) { if (n) r += ";"; r += std::to_string(O.env[i].first) + "=" + bitsOf(O.env[i].second); }
